@@ -57,7 +57,7 @@ def node_info(eng, idb, tag):
                                                   "last_seen": mk_time(bv(0, 64), bv(0, 32), "SystemTime"), "capacity": cap})
 
 
-def build_table(eng, src, layout, B):
+def build_table(eng, src, layout, B, max_size=None):
     """layout: list of bucket indices that may be populated.  -> (table value, nodes [(bucket, slot, idbv, valid)], lens)"""
     buckets = []
     nodes = []
@@ -74,9 +74,9 @@ def build_table(eng, src, layout, B):
                 elems.append(node_info(eng, idb, tag))
                 nodes.append((j, s, key_bv(idb), z3.ULT(bv(s, 64), ln), tag))
                 tag += 1
-            buckets.append(VStruct([VSeq(elems, ln), bv(8, 64)], "KBucket"))
+            buckets.append(VStruct([VSeq(elems, ln), bv(8, 64) if max_size is None else max_size], "KBucket"))
         else:
-            buckets.append(VStruct([VSeq([], bv(0, 64)), bv(8, 64)], "KBucket"))
+            buckets.append(VStruct([VSeq([], bv(0, 64)), bv(8, 64) if max_size is None else max_size], "KBucket"))
     local = VStruct([VStruct([VArr([bv(0, 8)] * 32)], "DhtKey")], "NodeId")
     table = mk_struct(eng, "KademliaRoutingTable", {"buckets": VSeq(buckets, bv(NB, 64)), "node_id": local, "_k_value": bv(8, 64)})
     return table, nodes, lens
